@@ -12,6 +12,7 @@ import operator
 import sqlite3
 
 from common import f2h, VERIF
+import c10_sql
 
 import autofit as af  # noqa: F401  (imports the library the way users do)
 from autofit import database as db
@@ -122,7 +123,7 @@ def wire_aval(v):
         return {"b": v}
     if isinstance(v, str):
         return {"s": v}
-    return {"n": f2h(float(v))}
+    return {"n": f2h(float(v)), "t": c10_sql.num_text(v)}
 
 
 ATTRS = ("id", "name", "unique_tag", "path_prefix", "is_complete", "is_grid_search", "max_log_likelihood")
@@ -320,6 +321,10 @@ def gen_leaf(rng, dbd, seen, pool, exact_stream, like_stream):
         path = rng.choice(pool)
         if rng.random() < 0.06:
             path = path[:-1] + (rng.choice(NAME_POOL),)  # a path no fit has
+        if rng.random() < 0.07:
+            # the bare path as a predicate (`agg.model.g.centre`): the attribute exists
+            k = rng.randint(1, len(path))
+            return {"k": "path", "names": list(path[:k]), "op": "eq", "c": {"k": "any"}}
         op, c = gen_const_for(rng, path, seen, exact_stream)
         leaf = {"k": "path", "names": list(path), "op": op, "c": c}
         if op == "eq" and rng.random() < 0.15:
@@ -504,6 +509,8 @@ def _build(agg, p):
         q = agg.model
         for n in p["names"]:
             q = getattr(q, n)
+        if p["c"]["k"] == "any":
+            return q
         c = const_py(p["c"])
         op = p["op"]
         if op == "eq":
@@ -562,6 +569,7 @@ def failing_first_access(real, a):
 def run_real(real, pred, orders, slices, chain_query):
     """-> dict(full=[ids], result=[ids]) or {"err": ..}"""
     agg = real.agg
+    real.last_predicate = None
     try:
         a = agg
         # what a derived aggregator answers does not depend on whether its parents were already read
@@ -576,6 +584,7 @@ def run_real(real, pred, orders, slices, chain_query):
                 a = a(build(agg, pred))
             else:
                 a = a.query(build(agg, pred))
+        real.last_predicate = a._predicate  # the predicate object the aggregator holds (read by check_sql)
         if touch:
             len(a.fits)
         elif real.touch % 4 == 1:
@@ -591,9 +600,32 @@ def run_real(real, pred, orders, slices, chain_query):
             for sl in slices:
                 b = b[sl[0]:sl[1]] if len(sl) == 2 else b[sl[0]:sl[1]:sl[2]]
             res = [f.id for f in (b if isinstance(b, list) else b.fits)]
-        return {"full": full, "result": res}
+        else:
+            b = a
+        out = {"full": full, "result": res}
+        if not isinstance(b, list):
+            out["views"] = aggregator_views(b)
+        return out
     except Exception as e:  # the kind of exception is the observable
         return {"err": f"{type(e).__name__}: {str(e)[:200]}"}
+
+
+def aggregator_views(b):
+    """the other ways the API hands out the fits of an aggregator: len(), iteration, map(), comparison with a list"""
+    return {"len": len(b), "iter": [f.id for f in b], "map": list(b.map(lambda f: f.id)), "eq_list": bool(b == list(b.fits))}
+
+
+def check_views(ctx, case, impl):
+    """`len(agg)`, `for fit in agg`, `agg.map(f)`, `agg == [fits]` present exactly the fits of `.fits`, each once, in
+    the same order (the property through the rest of the aggregator's API)"""
+    v = impl.get("views")
+    if v is None:
+        return
+    res = impl["result"]
+    ctx.hit("aggregator-views-compared")
+    if v["len"] != len(res) or v["iter"] != res or v["map"] != res or not v["eq_list"]:
+        ctx.fail("C10-aggregator-views", "len() / iteration / map() / == of an aggregator do not present exactly its fits",
+                 case, {"fits": res, "views": v})
 
 
 # ---------------------------------------------------------------------------------------------
@@ -626,6 +658,8 @@ def direct(p, rec, inst):
         if not ok:
             return False
         c = p["c"]
+        if c["k"] == "any":
+            return True
         if c["k"] == "num":
             return isinstance(v, (int, float)) and not isinstance(v, bool) and bool(OPS[p["op"]](v, c["v"]))
         if c["k"] == "str":
@@ -742,7 +776,26 @@ def negated_named_in_junction(pred):
     return False
 
 
+def is_bare(p):
+    return p.get("k") == "path" and p["c"]["k"] == "any"
+
+
+def bare_path_in_or(pred):
+    """an `|` with a bare path (`agg.model.g`, no comparison) among its alternatives"""
+    def alternatives(q):
+        if q.get("k") == "or":
+            return alternatives(q["x"]) + alternatives(q["y"])
+        return [q]
+
+    for q in walk_pred(pred or {}):
+        if q.get("k") == "or" and any(is_bare(a) for a in alternatives(q)):
+            return True
+    return False
+
+
 def classify(pred, dbd, real, want_full):
+    if bare_path_in_or(pred) and ("err" in real or sorted(real["full"]) != sorted(want_full)):
+        return "C10-bare-path-in-or", "a bare path (the attribute exists) as an alternative of | raises or loses the alternative"
     if has_misparsed_literal(pred):
         return "C10-sqlite-float-literal", "a float literal in the generated SQL is parsed by SQLite one ulp off, so the comparison misses"
     if like_sensitive(pred, dbd):
@@ -901,13 +954,17 @@ def probe_flags(ctx):
         keeps = sorted(r.get("full", [])) == ["w1", "w4"]
         r = run_real(real, None, [{"attr": "id", "reverse": False}], [[1, 3]], False)
         window = r.get("result") == ["w1", "w2"]
+        pred = {"k": "or", "x": {"k": "path", "names": ["g"], "op": "eq", "c": {"k": "any"}},
+                "y": {"k": "path", "names": ["g", "centre"], "op": "eq", "c": {"k": "num", "v": 1}}}
+        r = run_real(real, pred, [], [], False)
+        bare = len(r.get("full", [])) == 5
     finally:
         real.close()
-    return {"junctionKeepsNot": bool(keeps), "sliceWindow": bool(window)}
+    return {"junctionKeepsNot": bool(keeps), "sliceWindow": bool(window), "bareNotMerged": bool(bare)}
 
 
 def one_case(ctx, dbd, real, pred, orders, slices, chain_query=False, label="gen", cfg=None):
-    cfg = cfg or ctx.notes.get("flags_observed") or {"junctionKeepsNot": True, "sliceWindow": True}
+    cfg = cfg or ctx.notes.get("flags_observed") or {"junctionKeepsNot": True, "sliceWindow": True, "bareNotMerged": True}
     recs = dbd["fits"]
     case = {"db": dbd, "pred": pred, "orders": orders, "slices": slices, "chain_query": chain_query, "label": label}
 
@@ -923,6 +980,9 @@ def one_case(ctx, dbd, real, pred, orders, slices, chain_query=False, label="gen
     if "driver_error" in ans:
         ctx.disagree("driver", case, None, ans)
         return
+
+    check_sql(ctx, case, real, pred, ans, cfg)
+    check_views(ctx, case, impl)
 
     # ---- oracle (independent of the model): the property sentence on the real outputs
     problems, want_ids = judge(dbd, real, pred, orders, slices, impl)
@@ -948,7 +1008,7 @@ def one_case(ctx, dbd, real, pred, orders, slices, chain_query=False, label="gen
                  {"problems": problems[:3], "predicate": pred_text(fail_case["pred"])})
 
     # ---- correspondence: model vs implementation
-    known = classified is not None and classified[0] in ("C10-sqlite-float-literal", "C10-like-semantics")
+    known = classified is not None and classified[0] in ("C10-sqlite-float-literal", "C10-like-semantics", "C10-bare-path-in-or")
     if ans.get("fuel_ok") is False:
         ctx.disagree("C10.model-merge-depth", case, None, ans.get("render"))
     if ans.get("match") != ans.get("direct") and ans.get("wf") and cfg.get("junctionKeepsNot"):
@@ -981,6 +1041,40 @@ def one_case(ctx, dbd, real, pred, orders, slices, chain_query=False, label="gen
                 ctx.disagree("C10.slice", case, impl["result"], ans["result"])
         elif len(impl["result"]) != len(ans["result"]):
             ctx.disagree("C10.slice-size", case, impl["result"], ans["result"])
+
+
+def check_sql(ctx, case, real, pred, ans, cfg):
+    """the junctions as sets + the printed SQL: the text the real predicate object prints (`fit_query`, what
+    `Aggregator.fits` executes, and `str()`, what `__eq__/__hash__/sorted` use) against the text the model prints
+    from the query it compiled (`fitSql` / `sqlStr` of `compileSTop`), white space normalised, the conjuncts of a
+    junction's fit_query (python set order) sorted on both sides"""
+    if ans.get("fuel_ok_set") is False:
+        ctx.disagree("C10.model-set-merge-depth", case, None, ans.get("render_set"))
+    if ans.get("match_set") != ans.get("direct") and ans.get("wf") and cfg.get("junctionKeepsNot") and cfg.get("bareNotMerged", True):
+        ctx.disagree("C10.model-set-compile-vs-direct", case, ans.get("match_set"), ans.get("direct"))
+    if ans.get("dedup_agree") is False:
+        # two different conditions print the same SQL: the code keeps one of them, the theorems keep both
+        ctx.disagree("C10.dedup-by-text-vs-structure", case, None, ans.get("render_set"))
+    q = getattr(real, "last_predicate", None)
+    if q is None:
+        return  # building the query raised: judged (and classified) from the run itself
+    try:
+        texts = {"sql": c10_sql.canon_sql(q.fit_query)}
+        raw_str = str(q)
+    except Exception:
+        return
+    try:
+        texts["sql_str"] = c10_sql.canon_sql(raw_str)
+    except c10_sql.Ambiguous:
+        ctx.hit("sql-str-has-bare-junction-fit-query")
+    ctx.hit("sql-text-compared")
+    for k, clause in (("sql", "C10.sql-text"), ("sql_str", "C10.sql-str")):
+        if k not in texts:
+            continue
+        model = c10_sql.canon_sql(ans.get(k, ""))
+        if texts[k] != model:
+            ctx.disagree(clause, case, texts[k], model)
+            return
 
 
 def probe_storage(ctx, dbd, real, bad_ids, limit=40):
@@ -1022,6 +1116,8 @@ def hits(ctx, render, feats, orders, slices, want_ids, recs):
     ctx.hit(f"slices:{len(slices)}")
     if any(len(sl) == 3 for sl in slices):
         ctx.hit("slice:stepped")
+    if "(&[])" in render:
+        ctx.hit("leaf-bare-path")
     if any((sl[0] is not None and sl[0] < 0) or (sl[1] is not None and sl[1] < 0) for sl in slices):
         ctx.hit("slice-negative")
     if not want_ids:
@@ -1039,7 +1135,7 @@ def wire_pred(p):
     if k == "path":
         c = p["c"]
         if c["k"] == "num":
-            wc = {"k": "num", "v": f2h(float(c["v"]))}
+            wc = {"k": "num", "v": f2h(float(c["v"])), "t": c10_sql.num_text(c["v"])}
         elif c["k"] == "cls":
             wc = {"k": "cls", "path": class_path(class_of(c["name"]))}
         else:
@@ -1060,6 +1156,8 @@ def pred_text(p):
     k = p["k"]
     if k == "path":
         c = p["c"]
+        if c["k"] == "any":
+            return f"has {'.'.join(p['names'])}"
         cs = {"num": lambda: repr(c["v"]), "str": lambda: repr(c["v"]), "none": lambda: "None", "cls": lambda: c["name"]}[c["k"]]()
         sym = {"eq": "==", "lt": "<", "le": "<=", "gt": ">", "ge": ">="}[p["op"]]
         return f"{'.'.join(p['names'])} {sym} {cs}"
